@@ -4,7 +4,7 @@ CONSTANTS
  NParts <- NP21
  SubsChoices = {{"t1"},{"t2"},{"t1","t2"}}
  CommitTP <- CTP
- SessT = 2
+ SessChoices = {2}
  RebT = 2
  DefT = 30
  KeepT = {TRUE,FALSE}
@@ -22,6 +22,11 @@ CONSTANTS
  DevExpireIgnoresHb = FALSE
  DevNoLaggerDrop = FALSE
  DevNoExpire = FALSE
+ DevLaggerSkippedOnExpiry = FALSE
+ DevSyncRefusesIdle = FALSE
+ DevHbWriteUnlocked = FALSE
+ DevCleanupWriteUnlocked = FALSE
+ DevSyncLookupUnlocked = FALSE
 INIT TInit
 NEXT TNext
 POSTCONDITION Reached
